@@ -314,6 +314,31 @@ func init() {
 				seenBase[baseName(p)] = true
 			}
 			switch pick {
+			case 6:
+				// TWO processes without out-ports: refusing such a workflow before any
+				// command is what the library documents; if it runs it, Run must still
+				// return only when every task of both has finished
+				w2 := &WF{Name: "wf", Sources: map[string]string{}, MaxTasks: 2 + c.Tape.Choose(simrt.StGen, 3, 0), Bufsize: bufsizeOf(c.Tape)}
+				e := Edge{srcNode(w2, "src0", 1+c.Tape.Choose(simrt.StGen, 3, 0), ""), "out"}
+				if c.Tape.Choose(simrt.StGen, 2, 0) == 1 {
+					e = Edge{oneToOne(w2, "pre", e), "o0"}
+				}
+				for _, nm := range []string{"enda", "endb", "endc"}[:2+c.Tape.Choose(simrt.StGen, 2, 0)] {
+					addNode(w2, Node{Name: nm, Kind: KProc, Cores: 1, Ins: []InSpec{{Name: "a", From: []Edge{e}}}})
+				}
+				c.Sample = "several processes without out-ports: " + sample(w2)
+				c.Probe("several-sinkless-leaves")
+				inc := RunInc(w2, c.Tape, nil, 0, IncOpts{KillAt: -1, Strategy: strategyOf(c.Tape), Trace: c.Trace})
+				c.Absorb(inc)
+				if v := lightReturnOracle(inc, false); v.Status != "ok" {
+					return v
+				}
+				if inc.RT.RunReturned {
+					if got, want := len(execKeys(inc.Sim.Shell.Trace, "exit", 0)), len(Eval(w2).Tasks); got != want {
+						return Viol("early-return/task-lost", "several-sinkless-leaves", "Run returned after %d of %d tasks (several processes without out-ports)", got, want)
+					}
+				}
+				return OK()
 			case 3, 4:
 				// a Go-function task runs a nested workflow (slots of its own) before it
 				// writes its outputs: Run of the outer one still returns, nothing left
